@@ -97,14 +97,80 @@ func TestExh_C07(t *testing.T) {
 	// every kind of caller context against the faults that end in the request timeout or in a
 	// closed connection, for every request kind
 	for _, q := range reqs {
-		for _, cx := range []string{"", "deadline", "values", "cancel", "values+deadline", "cancel+deadline"} {
-			for _, ft := range []Fault{{Kind: "hang"}, {Kind: "close", When: "during"}, {Kind: "cut", Dir: "p2r", K: 20},
-				{Kind: "garbage", Level: "ttrpc", StreamSel: "zero", Type: 2, Bytes: []byte{1, 2, 3}, DeclLen: 3}} {
+		cxs := []string{"", "deadline", "values", "cancel", "values+deadline", "cancel+deadline"}
+		fts := []Fault{{Kind: "hang"}, {Kind: "close", When: "during"}, {Kind: "cut", Dir: "p2r", K: 20},
+			{Kind: "garbage", Level: "ttrpc", StreamSel: "zero", Type: 2, Bytes: []byte{1, 2, 3}, DeclLen: 3}}
+		if !ev.Thorough() {
+			// the quick tier keeps the timeouts few: the contexts that carry a deadline (and one
+			// that does not) against the fault that ends in the request timeout and one that does not
+			cxs = []string{"deadline", "cancel+deadline", "values"}
+			fts = fts[:2]
+		}
+		for _, cx := range cxs {
+			for _, ft := range fts {
 				c := mk(q.req, q.event, "", 0, false)
 				c.Ctx, c.FollowCtx, c.CtxDeadlineS = cx, cx, 30
 				c.Plugins[1].Fault = ft
 				run(c)
 			}
+		}
+	}
+	// large requests to a peer that reads k bytes and closes, at once or after not servicing the
+	// socket for a while: k inside the multiplexer header, the ttRPC header, the payload within
+	// and beyond what a socket buffer holds
+	sizes := []string{"1m"}
+	if ev.Thorough() {
+		sizes = []string{"256k", "1m", "3m"}
+	}
+	for _, q := range reqs {
+		for _, sz := range sizes {
+			for _, k := range []int{3, 12, 5000, 230_000} {
+				for _, stall := range []int{0, 40} {
+					c := mk(q.req, q.event, "r2p", k, false)
+					c.ReqSize = sz
+					c.Plugins[1].Fault.StallMs = stall
+					run(c)
+				}
+			}
+		}
+	}
+	// the peer that stops reading for good: with a large request the runtime's write is stuck,
+	// with a small one the write goes through and the answer never comes; either way the plugin
+	// costs one request timeout and is dropped
+	for _, q := range reqs {
+		for _, sz := range []string{"1m", ""} {
+			ks := []int{3, 12, 60}
+			if !ev.Thorough() {
+				ks = []int{12}
+			}
+			for _, k := range ks {
+				c := mk(q.req, q.event, "r2p", k, false)
+				c.ReqSize = sz
+				c.Plugins[1].Fault.StallMs = -1
+				run(c)
+			}
+		}
+	}
+	// pre-installed plugins (launched by the runtime, which also owns their processes): one
+	// fails during the first request at a non-last position, healthy launched plugins follow
+	L := func(idx int, ft Fault) PluginSpec { return PluginSpec{Idx: idx, Launched: true, Fault: ft} }
+	E := func(idx int, ft Fault) PluginSpec { return PluginSpec{Idx: idx, Fault: ft} }
+	none := Fault{Kind: "none"}
+	for _, q := range reqs {
+		for _, ps := range [][]PluginSpec{
+			{L(10, Fault{Kind: "hang"}), L(20, none), L(30, none)},
+			{L(10, Fault{Kind: "exit", K: 3}), L(20, none), L(30, none)},
+			{L(10, Fault{Kind: "close", When: "during"}), L(20, none), L(30, none)},
+			{L(10, none), L(20, Fault{Kind: "exit"}), L(30, none), L(40, none)},
+			{E(10, none), L(20, Fault{Kind: "exit", K: 1}), L(30, none)},
+			{L(10, Fault{Kind: "hang"}), E(20, none), L(30, none)},
+			{L(10, Fault{Kind: "exit"}), L(20, Fault{Kind: "close", When: "during"}), L(30, none), L(40, none)},
+			{E(10, Fault{Kind: "cut", Dir: "p2r", K: 20}), L(20, none), L(30, Fault{Kind: "exit"}), L(40, none)},
+			{L(10, Fault{Kind: "error", ErrText: "c07 veto by plugin 10", ErrForm: "status", ErrCode: 8, Again: true}), L(20, none)},
+		} {
+			c := mk(q.req, q.event, "", 0, false)
+			c.Plugins = ps
+			run(c)
 		}
 	}
 	r.SetExtra("sweep_error_forms", len(forms))
